@@ -1,0 +1,120 @@
+//go:build verif
+// +build verif
+
+package xpath
+
+import (
+	"errors"
+	"fmt"
+	"strconv"
+	"strings"
+)
+
+// This file is compiled only with the build tag "verif". It adds read-only
+// access points for the verification framework in /verif and changes nothing
+// in the package's behaviour.
+
+// VerifParseDump parses expr and returns a fully parenthesised rendering of
+// the parse tree. Parser panics are converted to errors the way build does.
+func VerifParseDump(expr string, namespaces map[string]string) (s string, err error) {
+	defer func() {
+		if e := recover(); e != nil {
+			switch x := e.(type) {
+			case string:
+				err = errors.New(x)
+			case error:
+				err = x
+			default:
+				err = errors.New("unknown panic")
+			}
+		}
+	}()
+	return verifDump(parse(expr, namespaces)), nil
+}
+
+func verifDump(n node) string {
+	switch x := n.(type) {
+	case nil:
+		return "ctx"
+	case *rootNode:
+		return "root"
+	case *operatorNode:
+		// the parser encodes unary minus as multiplication by the constant -1;
+		// a literal can never be negative, so the encoding is recognisable
+		if c, ok := x.Right.(*operandNode); ok && x.Op == "*" {
+			if f, ok := c.Val.(float64); ok && f == -1 {
+				return "neg(" + verifDump(x.Left) + ")"
+			}
+		}
+		return "(" + verifDump(x.Left) + " " + x.Op + " " + verifDump(x.Right) + ")"
+	case *axisNode:
+		test := x.Prop
+		if test == "" {
+			test = x.LocalName
+			if test == "" {
+				test = "*"
+			}
+			if x.Prefix != "" {
+				test = x.Prefix + ":" + test
+			}
+		} else {
+			test += "()"
+		}
+		return "step(" + verifDump(x.Input) + "," + x.AxisType + "," + test + ")"
+	case *operandNode:
+		switch v := x.Val.(type) {
+		case float64:
+			return "num(" + strconv.FormatFloat(v, 'g', -1, 64) + ")"
+		case string:
+			return "str(" + strconv.Quote(v) + ")"
+		}
+		return fmt.Sprintf("const(%v)", x.Val)
+	case *groupNode:
+		return "group(" + verifDump(x.Input) + ")"
+	case *filterNode:
+		return "filter(" + verifDump(x.Input) + "," + verifDump(x.Condition) + ")"
+	case *variableNode:
+		return "var(" + x.Name + ")"
+	case *functionNode:
+		a := make([]string, 0, len(x.Args))
+		for _, y := range x.Args {
+			a = append(a, verifDump(y))
+		}
+		return "call(" + x.FuncName + ":" + strings.Join(a, ",") + ")"
+	}
+	return fmt.Sprintf("?%T", n)
+}
+
+// VerifCacheGet calls the unexported get of a loading cache.
+func VerifCacheGet(c *loadingCache, key interface{}) (interface{}, error) {
+	return c.get(key)
+}
+
+// VerifCacheLen returns the number of entries currently held.
+func VerifCacheLen(c *loadingCache) int {
+	c.RLock()
+	defer c.RUnlock()
+	return len(c.m)
+}
+
+// VerifCacheCap returns the configured capacity (0 = unbounded).
+func VerifCacheCap(c *loadingCache) int {
+	c.RLock()
+	defer c.RUnlock()
+	return c.cap
+}
+
+// VerifCacheResets returns how often the cache was reset on reaching its capacity.
+func VerifCacheResets(c *loadingCache) int {
+	c.RLock()
+	defer c.RUnlock()
+	return c.reset
+}
+
+// VerifCacheHas reports whether key is currently cached (without loading it).
+func VerifCacheHas(c *loadingCache, key interface{}) bool {
+	c.RLock()
+	defer c.RUnlock()
+	_, ok := c.m[key]
+	return ok
+}
